@@ -1,7 +1,7 @@
 """C12 - closed-form scattering formulas are mutually consistent and physically bounded.
 Hypothesis-generated (E, theta, phi) over 1e-6..1e6 keV and [-4pi,4pi] plus structured special values; oracles are relations between
 the public functions (quadrature, azimuthal average, limits, algebraic identities, symmetry), not re-implementations."""
-import math
+import math, random
 import numpy as np
 from hypothesis import strategies as hs
 import common, xrl, hyp
@@ -234,11 +234,41 @@ def work(item):
                         if res:
                             st.violation(*res)
         k = 0
+    elif rel == "order":
+        # the value of a call does not depend on the call before it: the same argument tuples in E-major, theta-major, phi-major and
+        # seeded random order must give bit-identical values (a remembered intermediate keyed on part of the arguments breaks this)
+        rng = random.Random(mix(seed, "order"))
+        Es = [10.0 ** rng.uniform(-3, 5) for _ in range(6)] + [1.0, 510.998928]
+        ths = [rng.uniform(-4 * PI, 4 * PI) for _ in range(6)] + [0.0, PI / 2, PI]
+        phs = [rng.uniform(-4 * PI, 4 * PI) for _ in range(2)] + [0.0]
+        sets = {"DCS_Thoms": [(a,) for a in ths], "DCSP_Thoms": [(a, b) for a in ths for b in phs], "CS_KN": [(e,) for e in Es],
+                "DCS_KN": [(e, a) for e in Es for a in ths], "DCSP_KN": [(e, a, b) for e in Es for a in ths for b in phs],
+                "ComptonEnergy": [(e, a) for e in Es for a in ths]}
+        for fn, pts in sorted(sets.items()):
+            ref = {}
+            for a in pts:
+                ref[a] = r.v(fn, *a)
+            orders = [sorted(pts, key=lambda a: tuple(reversed(a))), sorted(pts, key=lambda a: (a[1:], a[0]))]
+            for _ in range(3):
+                o = list(pts); rng.shuffle(o); orders.append(o)
+            for o in orders:
+                prev = None
+                for a in o:
+                    st.ev()
+                    got = r.v(fn, *a)
+                    if prev is not None and any(x == y for x, y in zip(prev, a)):
+                        st.nt_key("order", fn, a, prev)
+                    if got != ref[a] and not (got[0] != got[0] and ref[a][0] != ref[a][0]):
+                        st.violation("order:" + fn, dict(fn=fn, args=list(a), previous=list(prev) if prev else None), ref[a], got)
+                        break
+                    prev = a
+        st.sample("order", dict(E=Es[:3], theta=ths[:3], phi=phs), cap=1)
+        k = 0
     st.cls("examples:" + rel, k)
     return st
 
 
-RELS = ["grid", "finite_positive", "total_is_integral", "azimuthal", "bounds", "ratio_form", "compton_energy", "symmetry", "nonpositive"]
+RELS = ["grid", "order", "finite_positive", "total_is_integral", "azimuthal", "bounds", "ratio_form", "compton_energy", "symmetry", "nonpositive"]
 
 
 def run(ctx):
@@ -247,12 +277,14 @@ def run(ctx):
                 "value (0, +-1e-8, +-pi/2, +-pi, 2pi, 3pi, 4pi); %d examples per relation (1/10 for the quadrature relation) + the full special grid. "
                 "Relations: finite&positive; CS_KN = 2pi*int DCS_KN (Gauss-Legendre 96/192 nodes, unconverged = inconclusive, 1e-9); azimuthal average "
                 "(8 phi, 1e-12); DCS_KN<=DCS_Thoms, CS_KN<=sigma_T and a->0 limits; Compton-ratio form (1e-12); Compton energy endpoints and monotone; "
-                "evenness (exact) and 2pi-periodicity (1e-11); E<=0 is an error. non-trivial = E outside [1,100] keV or theta not a multiple of pi/2; "
+                "evenness (exact) and 2pi-periodicity (1e-11); E<=0 is an error; call-order independence (same tuples in E-major, angle-major and "
+                "shuffled order: bit-identical). non-trivial = E outside [1,100] keV or theta not a multiple of pi/2; "
                 "distinct by (relation, E, theta, phi)" % n)
     b = ctx.build("plain", "A")
     items = [(b["lib"], b["src"], rel, n, ctx.seed) for rel in RELS]
     if not ctx.quick:
         items += [(b["lib"], b["src"], rel, n, ctx.seed + 1000 * k) for rel in RELS[1:] for k in (1, 2)]
+        items += [(b["lib"], b["src"], "order", n, ctx.seed + 7919 * k) for k in range(1, 40)]
     ctx.stats.merge(common.pmap(work, items))
     ctx.assumptions = ["numpy Gauss-Legendre nodes; quadrature self-checked by node doubling", "libm cos/sin shared with the library"]
 
@@ -273,6 +305,15 @@ def replay(ctx, rec):
         ok = (err is not None and val == 0.0) if sig.startswith("nonpositive") else (err is None and math.isfinite(val) and val > 0)
         print("replay %s%r -> %r %r" % (fn, a, val, err))
         return ok
+    if sig.startswith("order"):
+        fn, a, prev = c["fn"], c["args"], c.get("previous")
+        far = [x * 1.37 + 0.11 for x in a]
+        r.v(fn, *far); v1 = r.v(fn, *a)
+        if prev:
+            r.v(fn, *prev)
+        v2 = r.v(fn, *a)
+        print("replay %s%r: after unrelated call %r, after %r %r" % (fn, a, v1, prev, v2))
+        return v1 == v2
     if sig.startswith("integral"):
         res = r.total_is_integral(st, E)
     elif sig.startswith("azimuthal"):
